@@ -35,6 +35,8 @@ type Conn struct {
 	Safe    bool
 	Discard bool
 	Count   int
+	// OnWrite, when set, observes every frame at the moment it is transmitted.
+	OnWrite func(b []byte)
 	// FailAt > 0: the FailAt-th WriteTo (1 based) fails with ErrInjected and sends nothing.
 	FailAt int
 	writes int
@@ -63,6 +65,9 @@ func (c *Conn) WriteTo(b []byte, addr net.Addr) (int, error) {
 	}
 	if c.failNow() {
 		return 0, ErrInjected
+	}
+	if c.OnWrite != nil {
+		c.OnWrite(b)
 	}
 	c.record(b)
 	return len(b), nil
@@ -131,6 +136,22 @@ func Quiet() {
 	fastlog.DefaultIOWriter = io.Discard
 	if f, err := os.OpenFile("/dev/null", os.O_WRONLY, 0); err == nil {
 		os.Stdout = f
+	}
+}
+
+// DirtyPool returns frame buffers filled with 0xa5 to the library's buffer pool, as if they had carried earlier frames:
+// a send path that relies on a zeroed pool buffer then emits the stale bytes deterministically.
+func DirtyPool() {
+	var bufs []*[packet.EthMaxSize]byte
+	for i := 0; i < 6; i++ {
+		b := packet.EtherBufferPool.Get().(*[packet.EthMaxSize]byte)
+		for j := range b {
+			b[j] = 0xa5
+		}
+		bufs = append(bufs, b)
+	}
+	for _, b := range bufs {
+		packet.EtherBufferPool.Put(b)
 	}
 }
 
